@@ -166,3 +166,67 @@ Definition site_ok (s : site) : bool :=
   end.
 Definition dt_known (s : site) : bool := match s_dt s with DtUnknown => false | _ => true end.
 Definition is_cmf (s : site) : bool := String.eqb (s_func s) "_evolve_tdvp_mu_cmf".
+
+(* ------------------------------------------------------------------ Part 4: the loop with its data
+   The Lanczos vectors, alpha and beta as exact values over a commutative ring with involution plus the three
+   operations the ring does not have, each an abstract function with a contract stated where it is used:
+     inv   : 1/x                 (V[j+1] = w / beta[j])
+     nrm   : the 2-norm          (beta[j] = norm(w))
+     rpart : the real part       (alpha[j] = vdot(w, V[j]).real)
+     isz   : the breakdown test  (beta[j] < 100*n*eps; in exact arithmetic: beta[j] = 0)
+   and the kernel of _expm_krylov as a witness  expT m : the m x m matrix  exp(dt * T_m)  computed from
+   alpha[:m], beta[:m-1] by eigh_tridiagonal.  The data do not depend on the control decisions; the control
+   skeleton of Part 1 decides where the sequence is cut. *)
+Section Data.
+  Variable R : CRing.
+  Notation "0" := (r0 R).
+  Infix "+" := (radd R).
+  Infix "*" := (rmul R).
+  Infix "-" := (rsub R).
+
+  Variable N : nat.                      (* len(vstart) *)
+  Variable A : matx R.                   (* Afunc *)
+  Variable inv : R -> R.
+  Variable nrm : vec R -> R.
+  Variable rpart : R -> R.
+  Variable isz : R -> bool.
+
+  (* xp.vdot(x, y) = sum conj(x_i) y_i *)
+  Definition vdot (x y : vec R) : R := sumn N (fun i => rcj R (x i) * y i).
+  (* alpha[j] = vdot(w, V[j]).real with w = A V[j] *)
+  Definition lz_alpha (v : vec R) : R := rpart (vdot (mv R N A v) v).
+  (* w -= alpha[j]*V[j] + (beta[j-1]*V[j-1] if j > 0 else 0)      (j = 0: bprev = 0) *)
+  Definition lz_resid (vprev : vec R) (bprev : R) (v : vec R) : vec R :=
+    fun i => mv R N A v i - (lz_alpha v * v i + bprev * vprev i).
+
+  (* (V[k-1], beta[k-1], V[k]) *)
+  Fixpoint lz (v0 : vec R) (k : nat) : vec R * R * vec R :=
+    match k with
+    | O => (fun _ => 0, 0, v0)
+    | S k' => let '(vp, bp, v) := lz v0 k' in
+              let w := lz_resid vp bp v in
+              let b := nrm w in
+              (v, b, fun i => w i * inv b)
+    end.
+  Definition Vk (v0 : vec R) (k : nat) : vec R := snd (lz v0 k).
+  Definition alpha (v0 : vec R) (k : nat) : R := lz_alpha (Vk v0 k).
+  Definition resid (v0 : vec R) (k : nat) : vec R := let '(vp, bp, v) := lz v0 k in lz_resid vp bp v.
+  Definition beta (v0 : vec R) (k : nat) : R := nrm (resid v0 k).
+
+  (* V[:m].T as an N x m matrix, and the m x m tridiagonal matrix of _expm_krylov *)
+  Definition Vmat (v0 : vec R) : matx R := fun i c => Vk v0 c i.
+  Definition Tmat (v0 : vec R) : matx R := fun d c =>
+    if Nat.eqb d c then alpha v0 c else if Nat.eqb (S d) c then beta v0 d else if Nat.eqb d (S c) then beta v0 c else 0.
+
+  (* _expm_krylov:  V @ (u_hess @ (v_norm * exp(dt*w_hess) * u_hess[0]))  =  v_norm * V * E * e1  with E = expT m *)
+  Definition ret_vec (v0 : vec R) (nrm0 : R) (E : matx R) (m : nat) : vec R :=
+    fun i => nrm0 * mv R m (Vmat v0) (mv R m E (e1 R)) i.
+
+  (* expm_krylov: the control skeleton driven by the exact breakdown test; returns (exit, j+1, vector) *)
+  Definition krylov_return (bs : nat) (conv : nat -> bool) (v0 : vec R) (nrm0 : R) (expT : nat -> matx R)
+    : option (exit * nat * vec R) :=
+    match fst (run N bs (fun j => isz (beta v0 j)) conv) with
+    | Some (e, it, _) => Some (e, it, ret_vec v0 nrm0 (expT it) it)
+    | None => None
+    end.
+End Data.
